@@ -146,6 +146,9 @@ func (bs *blockState) tm(v Val, want string, pos token.Pos) Term {
 	if mr, ok := v.(*MapRef); ok {
 		return bs.cellTerm(mr.cell, pos)
 	}
+	if sr, ok := v.(*SliceRef); ok {
+		return bs.cellTerm(sr.cell, pos)
+	}
 	if p, ok := v.(*Ptr); ok {
 		if t, ok := bs.load(p, pos).(Term); ok {
 			return t
@@ -252,6 +255,11 @@ func (fr *Frame) updatePath(t Term, path []PathElem, v Term, pos token.Pos) Term
 		nv := fr.updatePath(cur, path[1:], v, pos)
 		return Term{"(store " + t.S + " " + pe.idx.S + " " + nv.S + ")", t.Sort}
 	}
+	if h == "Slice" {
+		cur := Term{"(select (sarr " + t.S + ") " + pe.idx.S + ")", args[0]}
+		nv := fr.updatePath(cur, path[1:], v, pos)
+		return Term{"(mkSlice (slen " + t.S + ") (store (sarr " + t.S + ") " + pe.idx.S + " " + nv.S + "))", t.Sort}
+	}
 	ex.unsup(pos, "indexed store on sort %s", t.Sort)
 	return t
 }
@@ -264,6 +272,10 @@ func (bs *blockState) store(p *Ptr, v Val, pos token.Pos) {
 	}
 	if p.slice != nil {
 		ex.unsup(pos, "store through an element of a slice value (aliasing not modelled)")
+		return
+	}
+	if p.cell != nil && p.cell.ro {
+		ex.unsup(pos, "store through a read-only view (%s) of a value: the original would have to change (aliasing not modelled)", p.cell.name)
 		return
 	}
 	if p.bref != nil {
@@ -322,6 +334,8 @@ func (fr *Frame) pathSort(s string, path []PathElem) string {
 			h, args := sortParts(s)
 			if h == "Array" {
 				s = args[1]
+			} else if h == "Slice" {
+				s = args[0]
 			} else {
 				return ""
 			}
@@ -402,6 +416,7 @@ func (bs *blockState) exec(ins ssa.Instruction) {
 				if _, isStruct := ex.P.sig.Structs[t.Sort]; isStruct {
 					// pointer-to-struct value modelled by its pointee: read-only view
 					c := ex.newCell("deref", t.Sort)
+					c.ro = true
 					bs.st.cells[c] = t
 					p, ok = &Ptr{cell: c}, true
 				}
@@ -437,6 +452,10 @@ func (bs *blockState) exec(ins ssa.Instruction) {
 		case *BytesRef:
 			bs.safe("index", and(Term{"(<= 0 " + idx.S + ")", "Bool"}, Term{"(< " + idx.S + " " + b.len.S + ")", "Bool"}), pos)
 			fr.vals[x] = &Ptr{bref: b, idx: idx}
+		case *SliceRef:
+			cur := bs.cellTerm(b.cell, pos)
+			bs.safe("index", and(Term{"(<= 0 " + idx.S + ")", "Bool"}, Term{"(< " + idx.S + " (slen " + cur.S + "))", "Bool"}), pos)
+			fr.vals[x] = &Ptr{cell: b.cell, path: []PathElem{{field: -1, idx: idx}}}
 		default:
 			t := bs.tm(base, "", pos)
 			l, err := lenTerm(t)
@@ -514,7 +533,13 @@ func (bs *blockState) exec(ins ssa.Instruction) {
 			return
 		}
 		_, args := sortParts(s)
-		fr.vals[x] = Term{fmt.Sprintf("(mkSlice %s %s)", n.S, so.zeroArr(args[0])), s}
+		c := ex.newCell("slice", s)
+		bs.st.cells[c] = Term{fmt.Sprintf("(mkSlice %s %s)", n.S, so.zeroArr(args[0])), s}
+		if ex.sliceCells == nil {
+			ex.sliceCells = map[*Cell]bool{}
+		}
+		ex.sliceCells[c] = true
+		fr.vals[x] = &SliceRef{cell: c}
 	case *ssa.MakeMap:
 		ms := so.sortOf(x.Type())
 		c := ex.newCell("map", ms)
@@ -732,6 +757,7 @@ func (bs *blockState) fieldPtr(p *Ptr, st *types.Struct, field int, sortName str
 			f := si.Fields[k]
 			holder := Term{selOf(si, k, base.S), f.Sort}
 			c := ex.newCell("ro_"+f.Name, f.Sort)
+			c.ro = true
 			bs.st.cells[c] = holder
 			return &Ptr{cell: c}
 		}
@@ -754,7 +780,7 @@ func (bs *blockState) fieldPtr(p *Ptr, st *types.Struct, field int, sortName str
 		ex.P.sig.Funs[acc] = &FunSig{Args: []string{sortName}, Ret: fs}
 		ex.P.sorts.decls = append(ex.P.sorts.decls, fmt.Sprintf("(declare-fun %s (%s) %s)", acc, sortName, fs))
 	}
-	c := ex.newCell("ro_"+f.Name(), fs)
+	c := ex.newCell("ro_"+f.Name(), fs) // field of an opaque struct: content not modelled, reads go through an accessor
 	bs.st.cells[c] = Term{"(" + acc + " " + ct.S + ")", fs}
 	return &Ptr{cell: c}
 }
@@ -913,8 +939,14 @@ func (bs *blockState) nilTest(v ssa.Value, pos token.Pos) Term {
 			return tTrue
 		}
 		if h, _ := sortParts(x.Sort); h == "Slice" {
-			// nil and empty slices are not distinguished for non-byte slices
-			return Term{"(= (slen " + x.S + ") 0)", "Bool"}
+			// non-byte slices carry no nil flag: a nil slice is empty, an empty slice may or may not be nil
+			if f, ok := fr.nilFlags[v]; ok {
+				return f
+			}
+			f := ex.fresh("isnil", "Bool")
+			ex.emit("(assert (=> %s (= (slen %s) 0)))", f.S, x.S)
+			fr.nilFlags[v] = f
+			return f
 		}
 		if _, isPtr := v.Type().Underlying().(*types.Pointer); isPtr {
 			if _, isParam := v.(*ssa.Parameter); isParam {
